@@ -156,6 +156,23 @@ LOG = []
 ENV = {}
 
 
+class _Aw:
+    def __init__(self, v):
+        self.v = v
+
+    def __await__(self):
+        if False:
+            yield
+        return self.v
+
+
+def _fut(v):
+    import asyncio
+    f = asyncio.get_running_loop().create_future()
+    f.set_result(v)
+    return f
+
+
 def make_classes(sc):
     from statemachine import State, StateMachine
     kinds = sc["provide"]          # name index -> (provider, how)
@@ -171,6 +188,10 @@ def make_classes(sc):
                 d[name] = property(lambda self, n=n: (LOG.append(n), pyv(ENV[n]))[1])
             elif how == "method":
                 d[name] = (lambda n: lambda self: (LOG.append(n), pyv(ENV[n]))[1])(n)
+            elif how == "aw_object":     # a plain method handing back an awaitable that is no coroutine
+                d[name] = (lambda n: lambda self: (LOG.append(n), _Aw(pyv(ENV[n])))[1])(n)
+            elif how == "aw_future":     # ... or an already resolved Future of the running loop
+                d[name] = (lambda n: lambda self: (LOG.append(n), _fut(pyv(ENV[n])))[1])(n)
             # "attr": set on the instance before each send
         return d
     body = {"s0": State(initial=True)}
@@ -318,7 +339,7 @@ def coq_case(sc, obs):
         return f"(mal {1 if obs.get('construct') == 'idef' else 0})"
     if obs.get("construct") != "ok":
         return "(mal 0)"
-    logged = [int(n) for n, (p, how) in sc["provide"].items() if how in ("property", "method")]
+    logged = [int(n) for n, (p, how) in sc["provide"].items() if how in ("property", "method", "aw_object", "aw_future")]
     steps = []
     for env, s in zip(sc["envs"], obs["steps"]):
         ev = "[" + "; ".join(f"({n}, {cq_val(v)})" for n, v in env.items()) + "]"
@@ -409,6 +430,11 @@ def gen_case(rng, depth):
     if rng.random() < 0.3 and not cmpy and not (sc.get("second") and has_cmp(sc["second"]["ast"])):
         sc["async_engine"] = True      # (comparisons may raise TypeError, whose fate among several
                                        #  concurrently evaluated guards is left open)
+        # a guard that is one bare name may hand back an awaitable which is not a coroutine object (inside
+        # a larger expression only the last operand's value is awaited: D10, kept out here)
+        if a[0] == "n" and not sc.get("second") and rng.random() < 0.7:
+            prov, _how = provide[str(a[1])]
+            provide[str(a[1])] = (prov, rng.choice(["aw_object", "aw_future"]))
     return sc
 
 
